@@ -328,12 +328,12 @@ _LOWERED = {}
 
 
 def lower(build, group="lib", level="O0", langs=("c", "c++"), extra=(),
-          scev=False, tolerate=()):
+          scev=False, tolerate=(), inline_internal=False):
     """Lower all units of a group to one linked IR module and describe it.
 
     tolerate: rel paths of units whose failure to compile under clang is
     recorded instead of aborting the analysis."""
-    key = (build.cfg.name, group, level, tuple(langs), tuple(extra), scev)
+    key = (build.cfg.name, group, level, tuple(langs), tuple(extra), scev, inline_internal)
     if key in _LOWERED:
         return _LOWERED[key]
     t0 = time.time()
@@ -363,7 +363,7 @@ def lower(build, group="lib", level="O0", langs=("c", "c++"), extra=(),
         run(["opt-14", "-S", "-passes=" + passes, linked, "-o", opt])
         linked = opt
     js = os.path.join(outdir, "linked.json")
-    run([IRDUMP] + (["--scev"] if scev else []) + [linked, js])
+    run([IRDUMP] + (["--scev"] if scev else []) + (["--inline-internal"] if inline_internal else []) + [linked, js])
     res.path, res.json = linked, js
     res.wall_s = time.time() - t0
     _LOWERED[key] = res
@@ -374,7 +374,7 @@ def lower_many(jobs):
     """jobs: list of (build, kwargs).  Runs lowerings concurrently."""
     def keyof(b, kw):
         return (b.cfg.name, kw.get("group", "lib"), kw.get("level", "O0"), tuple(kw.get("langs", ("c", "c++"))),
-                tuple(kw.get("extra", ())), kw.get("scev", False))
+                tuple(kw.get("extra", ())), kw.get("scev", False), kw.get("inline_internal", False))
     uniq = {}
     for b, kw in jobs:
         uniq.setdefault(keyof(b, kw), (b, kw))      # identical jobs share one output directory: run once
